@@ -356,6 +356,10 @@ def oracle_C03(case, out):
                         {"weight": w, "reference": want, "constrained": [list(p) for p in cons], "entries": s["entries"]}))
         if not cons and w != 0:
             bad.append(("empty constraint with non-zero weight", {"weight": w}))
+    for s_ in out["steps"]:
+        if s_["kind"] == "gen" and s_["res"][0] == "ok" and s_.get("closure_differs"):
+            bad.append(("importance through the partially applied function g(a)(rest) differs from g(a, *rest)",
+                        {"entries": s_["entries"], "difference": str(s_["closure_differs"])[:300]}))
     return bad
 
 
